@@ -63,7 +63,7 @@ SKIP = set("new splat map select from_array to_array from_slice write_to_slice e
 
 
 def build(config, tier):
-    obs, uncovered = [], []
+    obs, uncovered, undecidable = [], [], []
     for T in INT_VECS:
         N, n, t = T.name, T.n, T.t
         src = open(os.path.join(weave.REPO, T.file("sse2"))).read()
@@ -122,6 +122,10 @@ def build(config, tier):
                 # overflow-free in EVERY association order iff the sum of its positive terms and the sum of its
                 # negative terms both fit (checked_add chains of same-signed terms are order independent).
                 zero = "(0 as %s)" % t
+                if (bits >= 32 and m in ("cross", "element_product", "length_squared", "distance_squared")) or (bits == 64 and m == "dot"):
+                    # measured: cvc5 and CaDiCaL both exceed the timeout on these multi-term 32/64-bit products
+                    undecidable.append("%s::%s (multi-term %d-bit products: solver limit)" % (N, m, bits))
+                    continue
 
                 def anyorder(terms):
                     pos = "Some(%s)" % zero
@@ -258,11 +262,11 @@ def build(config, tier):
     obs.append(Ob("c13_%s_canary_add_never_panics" % config, PROP,
                   'let v = mk::<IVec3>(); let u = mk::<IVec3>(); let r = v + u; check!(r.to_array()[0] == v.to_array()[0].wrapping_add(u.to_array()[0]), "add wraps");',
                   fn="IVec3 + IVec3", kind="canary", expect="refute", stubs=[], desc="canary: + claimed total (no overflow panic)"))
-    return obs, uncovered
+    return obs, uncovered, undecidable
 
 
 def run(s):
-    obs, unc = build("sse2", s.tier)
+    obs, unc, und = build("sse2", s.tier)
     s.run_config("sse2", [], obs)
     s.assumptions += [
         "overflow-checking (debug) profile only: Kani compiles with overflow checks on; the release profile is not covered",
@@ -274,5 +278,5 @@ def run(s):
     ]
     return s.finish(level_note="generated full-domain lane-lift clauses for the 27 integer vector types (value, checked_, must-panic)",
                     trusted_base=["Kani 0.68 / CBMC 6.11 / CaDiCaL; CBMC SMT2 back end + cvc5 for wide multipliers/dividers"],
-                    extra_cov={"uncovered_functions": unc},
-                    not_decided=["release profile (overflow checks off)", "Sum/Product over iterators", "exact panic boundary of multi-term reductions"])
+                    extra_cov={"uncovered_functions": unc, "not_decided_functions": und},
+                    not_decided=["cross/element_product/length_squared/distance_squared of the 32/64-bit types and dot of the 64-bit types (solver limit; listed under not_decided_functions)", "release profile (overflow checks off)", "Sum/Product over iterators", "exact panic boundary of multi-term reductions"])
